@@ -13,7 +13,8 @@ type ControlChans struct {
 }
 
 type pauseManager struct {
-	subscribers sync.Map // Map of *ControlChans to struct{}
+	mu          sync.Mutex // Serialises Pause and Resume
+	subscribers sync.Map   // Map of *ControlChans to struct{}
 	isPaused    atomic.Bool
 	message     string
 }
@@ -43,6 +44,9 @@ func Unsubscribe(chans *ControlChans) {
 
 // Pause sends a pause signal to all subscribers.
 func Pause(message ...string) {
+	manager.mu.Lock()
+	defer manager.mu.Unlock()
+
 	swap := manager.isPaused.CompareAndSwap(false, true)
 	if !swap {
 		return
@@ -70,6 +74,14 @@ func Pause(message ...string) {
 
 // Resume reads from each subscriber's ResumeCh to unblock them.
 func Resume() {
+	manager.mu.Lock()
+	defer manager.mu.Unlock()
+
+	// Nothing is paused: no subscriber is going to send on its ResumeCh.
+	if !manager.isPaused.Load() {
+		return
+	}
+
 	var wg sync.WaitGroup
 	manager.subscribers.Range(func(key, _ interface{}) bool {
 		chans := key.(*ControlChans)
